@@ -8,8 +8,12 @@ RULES = {
     "O2": "restore pushes the listed orders in listed order (forward iteration, one push per element)",
     "O3": "the listing is not re-ordered by anything else (exactly one sort, keyed on timestamp() alone, ascending)",
     "O5": "restore rebuilds the queue from exactly the listed order sequence: refresh_aggregates does not alter the list, and the queue constructor receives that very list (not a filtered / re-ordered copy)",
+    "O6": "the JSON restore route keeps every order as it was: no asymmetric serde attribute on the snapshot's type closure; an order id comes back as the same id (OrderId writes to_string(), reads an owned string through from_str, and that pair round-trips) - otherwise later cancels/amends addressed by id diverge",
     "O4": "both levels queue the same way: the live queue's primitives keep their FIFO shape (push = insert + ticket; pop = entry of the ticket taken; remove only deletes the map entry) and nobody else touches the containers, so the original and the restored level order identical pushes identically",
 }
+
+
+from ..level import LevelAnalysis as LevelAnalysis2
 
 
 def run(ctx, chk):
@@ -40,11 +44,16 @@ def run(ctx, chk):
     Q.rule_pop(chk, "O4", "O4", "O4", seq=True)
     Q.rule_remove_find(chk, "O4")
     Q.who_may(chk, "O4")
+    from .. import lvlrules as LR2
+    LR2.rule_no_remove_then_push_in_extras(ctx, chk, LevelAnalysis2(ctx), "O4")
     Q.rule_constructors(chk, "O2")
     from ..level import LevelAnalysis
     from .c01 import check_constructors
     check_constructors(ctx, chk, LevelAnalysis(ctx), rid="O5", rid0="O5")
     Q.rule_to_vec(chk, "O3")
+    from .c17 import rule_serde_attrs, rule_order_id_json
+    rule_serde_attrs(ctx, chk, "O6", "O6")
+    rule_order_id_json(ctx, chk, "O6")
     # restore path: from_snapshot builds the queue from snapshot.orders via From<Vec>
     for nm, tr in (("from_snapshot", None), ("from", "From<&price_level::snapshot::PriceLevelSnapshot>")):
         fb = ctx.db.method("PriceLevel", nm, trait=tr)
